@@ -39,6 +39,7 @@ type HarnessCfg struct {
 	Samples       int      `json:"samples"`
 	Env           map[string]string `json:"env"` // harness parameters readable through verif.Param
 	Note          string   `json:"note"`
+	Prefer        string   `json:"prefer"` // "cvc5": ask cvc5 (bv-as-int) before z3
 }
 
 type Violation struct {
@@ -720,6 +721,8 @@ func (in *Interp) explore(cfg *HarnessCfg, fn *ssa.Function, deadline time.Time,
 	in.obligationAssumed = map[obKey]bool{}
 	in.solver.reset()
 	in.solver.timeoutMs = cfg.TimeoutMs
+	in.solver.preferCvc5 = cfg.Prefer == "cvc5"
+	in.solver.modelCostly = false
 	in.solver.send(fmt.Sprintf("(set-option :timeout %d)", cfg.TimeoutMs))
 	t0 := time.Now()
 	funcCalls := map[*ssa.Function]int{}
